@@ -9,4 +9,5 @@ import Gbo.Props.C06
 import Gbo.Props.C07
 import Gbo.Props.C12
 import Gbo.Props.C14
+import Gbo.Props.C15
 import Gbo.Props.C17
